@@ -39,7 +39,15 @@ pub struct Case {
     pub cut: u8,
     /// variant 1 with raw client: burn 64 request streams first so the session id needs 2 bytes
     pub high_session: bool,
+    /// variant 1: pause between the two pieces of a cut preamble (ms); long pauses model a
+    /// retransmitted tail packet or a sender blocked on flow control
+    #[serde(default = "default_gap")]
+    pub gap_ms: u16,
     pub streams: Vec<StreamSpec>,
+}
+
+fn default_gap() -> u16 {
+    8
 }
 
 fn window_bytes(sel: u8) -> Option<u32> {
@@ -67,8 +75,8 @@ fn spec_strategy() -> impl Strategy<Value = StreamSpec> {
 }
 
 pub fn case_strategy(max_streams: usize) -> impl Strategy<Value = Case> {
-    (0u8..3, 0u8..3, prop_oneof![3 => Just(0u8), 2 => Just(1u8), 1 => Just(2u8)], any::<bool>(), 0u8..8, prop_oneof![4 => Just(false), 1 => Just(true)], proptest::collection::vec(spec_strategy(), 1..=max_streams))
-        .prop_map(|(flavor, window, variant, wt_is_server, cut, high_session, streams)| Case { flavor, window, variant, wt_is_server, cut, high_session, streams })
+    (0u8..3, 0u8..3, prop_oneof![3 => Just(0u8), 2 => Just(1u8), 1 => Just(2u8)], any::<bool>(), 0u8..8, prop_oneof![4 => Just(false), 1 => Just(true)], prop_oneof![3 => Just(8u16), 1 => 0u16..40, 1 => 280u16..420], proptest::collection::vec(spec_strategy(), 1..=max_streams))
+        .prop_map(|(flavor, window, variant, wt_is_server, cut, high_session, gap_ms, streams)| Case { flavor, window, variant, wt_is_server, cut, high_session, gap_ms, streams })
 }
 
 fn head_of(spec: &StreamSpec) -> &'static [u8] {
@@ -403,6 +411,7 @@ async fn exec_raw_to_wt(case: Arc<Case>) -> CaseResult {
             let conn = raw_conn.clone();
             let sh = shared2.clone();
             let cut = case2.cut as usize;
+            let gap = Duration::from_millis(case2.gap_ms as u64);
             tasks.push(tokio::spawn(async move {
                 let data = fwd_payload(i, &spec);
                 let r: Res<()> = async {
@@ -417,7 +426,7 @@ async fn exec_raw_to_wt(case: Arc<Case>) -> CaseResult {
                     sh.lock().unwrap().ids.insert(id, i);
                     if cut < preamble.len() {
                         if cut > 0 {
-                            write_cut(&conn, &mut s, &preamble[..cut], Duration::from_millis(8)).await?;
+                            write_cut(&conn, &mut s, &preamble[..cut], gap).await?;
                         }
                         write_cut(&conn, &mut s, &preamble[cut..], Duration::from_millis(if i % 2 == 0 { 8 } else { 0 })).await?;
                         s.write_all(&data).await.map_err(|e| e.to_string())?;
@@ -551,6 +560,9 @@ fn labels_of(case: &Case) -> Vec<&'static str> {
     }];
     if case.variant % 3 == 1 && case.cut < 3 {
         l.push("preamble-split");
+        if case.gap_ms >= 250 {
+            l.push("preamble-split-long-gap");
+        }
     }
     if case.streams.iter().any(|s| s.len > window_bytes(case.window).unwrap_or(u32::MAX)) {
         l.push("len>window");
@@ -576,13 +588,16 @@ pub fn run(run: &Run) {
                 if high && !wt_is_server {
                     continue;
                 }
-                for cut in 0u8..5 {
-                    let case = Case { flavor: cut % 3, window: 2, variant: 1, wt_is_server, cut, high_session: high, streams: vec![StreamSpec { from_client: !wt_is_server, bidi, len: 37, head: 1 + cut % 6, chunks: vec![], write_all: true, read_buf: 7, read_exact: cut % 2 == 0, reverse_len: 11 }] };
+                for (cut, gap_ms) in [(0u8, 8u16), (1, 8), (2, 8), (3, 8), (4, 8), (1, 330), (2, 330), (3, 330)] {
+                    let case = Case { flavor: cut % 3, window: 2, variant: 1, wt_is_server, cut, high_session: high, gap_ms, streams: vec![StreamSpec { from_client: !wt_is_server, bidi, len: 37, head: 1 + cut % 6, chunks: vec![], write_all: true, read_buf: 7, read_exact: cut % 2 == 0, reverse_len: 11 }] };
                     let o = judge(|| exec(&case), true, "C01:timeout");
                     match o {
                         Outcome::Pass { nontrivial, .. } => {
                             run.eval("preamble-cut-table", nontrivial, vcore::hash64(&format!("{case:?}")));
                             run.label("preamble-split");
+                            if case.gap_ms >= 250 {
+                                run.label("preamble-split-long-gap");
+                            }
                             if run.wants_sample("preamble-cut-table") {
                                 run.sample("preamble-cut-table", || vcore::abbreviate(serde_json::to_value(&case).unwrap()));
                             }
@@ -597,7 +612,7 @@ pub fn run(run: &Run) {
             }
         }
     }
-    run.section_exhaustive("preamble-cut-table", true, "role x kind x session-id width x cut offset 0..4 of the preamble");
+    run.section_exhaustive("preamble-cut-table", true, "role x kind x session-id width x cut offset 0..4 of the preamble, short (8 ms) and long (330 ms) pause between the pieces");
     prop_search(
         run,
         Search { check: "streams", cases: run.tier.pick(320, 6000), workers: 8, max_shrink_iters: 48 },
@@ -608,7 +623,7 @@ pub fn run(run: &Run) {
         },
         |c| serde_json::to_value(c).unwrap(),
     );
-    for l in ["variant:wt-wt", "variant:raw-to-wt", "variant:wt-to-raw", "preamble-split", "len>window", "adversarial-head"] {
+    for l in ["variant:wt-wt", "variant:raw-to-wt", "variant:wt-to-raw", "preamble-split", "preamble-split-long-gap", "len>window", "adversarial-head"] {
         run.essential(l);
     }
 }
